@@ -2,7 +2,7 @@
    every emitted row is the sum of the affiliates' latest balances. *)
 From Coq Require Import List NArith ZArith QArith Qcanon Bool Lia.
 From ACB Require Import Base.Outcome Base.QcExtra Base.Arith Model.Tx Model.Ledger Model.Sfl
-     Model.DeltaList Spec.AvgCost Proofs.Tactics Proofs.C01Refine.
+     Model.DeltaList Spec.AvgCost Proofs.Tactics Proofs.C01Refine Proofs.AllAfter.
 Import ListNotations.
 Local Open Scope Qc_scope.
 
@@ -52,10 +52,10 @@ Lemma set_latest_sum st af v st' :
   ps_map st' = aupdate (af_id af) v (ps_map st) /\
   s_all v = total_shares (abs_map (ps_map st')) /\ st_sum st'.
 Proof.
-  unfold set_latest, st_sum. cbn [a_add a_sub exact bind]. intros H Hs.
+  unfold set_latest, st_sum. rewrite all_after_exact. cbn [bind]. intros H Hs.
   destruct (negb (Bool.eqb _ _)); [discriminate|].
   destruct (Qceqb_spec (s_all v)
-              (s_sh v + ps_all st - match latest_for st af with Some s => s_sh s | None => 0 end))
+              (ps_all st + (s_sh v - match latest_for st af with Some s => s_sh s | None => 0 end)))
     as [He|]; cbn [negb] in H; [|discriminate].
   inversion H; subst st'; clear H. cbn [ps_map ps_all].
   assert (Ht : s_all v = total_shares (abs_map (aupdate (af_id af) v (ps_map st)))).
@@ -75,7 +75,7 @@ Proof.
          + destruct sfl; [discriminate|]. inversion H; reflexivity.
        - inversion H; reflexivity. }
   all: bind_as H as d0 Ed; inversion H; subst; unfold delta_nonsell in Ed; rewrite Ea in Ed.
-  - bind_as Ed as a1 E1. bind_as Ed as a2 E2. destruct (s_acb _).
+  - bind_as Ed as a1 E1. bind_as Ed as a0 E0. bind_as Ed as a2 E2. destruct (s_acb _).
     + bind_as Ed as a3 E3. bind_as Ed as a4 E4. bind_as Ed as a5 E5. bind_as Ed as a6 E6.
       inversion Ed; reflexivity.
     + inversion Ed; reflexivity.
@@ -88,7 +88,6 @@ Proof.
       bind_as Ed as a3 E3. inversion Ed; reflexivity.
     + destruct (negb _); discriminate.
   - bind_as Ed as a1 E1. bind_as Ed as a2 E2. bind_as Ed as a3 E3. bind_as Ed as a4 E4.
-    bind_as Ed as a5 E5.
     destruct (Qcltb _ _); [discriminate|]. destruct (_ && _); [discriminate|].
     inversion Ed; reflexivity.
 Qed.
